@@ -25,6 +25,7 @@ ASSUMPTIONS = ['percentile = linear interpolation (numpy default), re-implemente
                'when the fall-back decision differs between counting rows and counting measurements both are accepted',
                'crashes of run() are left to C08']
 BUDGET = {'quick': 1800, 'thorough': 30000}
+CORPUS = 'pipeline'
 WEIGHTS = {'layered': 8, 'exact_counts': 3, 'split_candidate': 3, 'merge_chain': 3, 'ref_window': 2,
            'degenerate': 1}
 
